@@ -103,7 +103,7 @@ fn run(cfg: &RunCfg) -> Report {
         lengths: !small,
         random: if small { 300_000 } else { cfg.pick(6_000_000, 120_000_000) },
     };
-    let cfgs: Vec<CtxCfg> = (0..3).map(|_| CtxCfg::random(&mut crng, false)).collect();
+    let cfgs: Vec<CtxCfg> = (0..3).map(|_| CtxCfg::random_maybe_empty(&mut crng, false, 4)).collect();
     with_ctx(&cfgs[0], |c0| {
         with_ctx(&cfgs[1], |c1| {
             with_ctx(&cfgs[2], |c2| {
